@@ -381,6 +381,8 @@ def scenarios(tier, seed):
     for pat in mt:
         t = len(pat.split("|")[0])
         add("multitask_exact", n=2, t=t, m=1, pattern=pat, policy="mask", second_policy="fill" if pat != "00|00" else None)
+        if pat in ("01|00", "10|01"):
+            add("multitask_exact", n=2, t=t, m=1, pattern=pat, policy="mask", second_policy="fill", noninterleaved=True)
         if pat != "00|00":
             add("multitask_exact", n=2, t=t, m=1, pattern=pat, policy="fill", second_policy="mask")
     return out
